@@ -166,10 +166,10 @@ type Note struct {
 
 // Interp interprets one function activation.
 type Interp struct {
-	w     *World
-	fi    *FuncInfo
-	info  *types.Info
-	depth int
+	w      *World
+	fi     *FuncInfo
+	info   *types.Info
+	depth  int
 	parent *Interp
 
 	recvObj types.Object
@@ -177,22 +177,22 @@ type Interp struct {
 	param   types.Object // decoder input parameter (byte slice), if any
 	paramID int
 
-	guards   []string
-	loops    []*LoopCtx
-	Stores   []*Store
-	Rets     []*RetRec
-	Notes    []Note
-	Reads    []*Rec // decoder read records
-	Sites    []*Site
-	Calls    []*CallRec
-	Copies   []*CopyRec
-	Allocs   []*AllocSite
+	guards    []string
+	loops     []*LoopCtx
+	Stores    []*Store
+	Rets      []*RetRec
+	Notes     []Note
+	Reads     []*Rec // decoder read records
+	Sites     []*Site
+	Calls     []*CallRec
+	Copies    []*CopyRec
+	Allocs    []*AllocSite
 	LoopsSeen []*LoopRec
-	DecCalls []*DecCall
-	Defers   []*ast.DeferStmt
-	Gos      []*ast.GoStmt
-	Switches []*SwitchRec
-	shared   *sharedCtx
+	DecCalls  []*DecCall
+	Defers    []*ast.DeferStmt
+	Gos       []*ast.GoStmt
+	Switches  []*SwitchRec
+	shared    *sharedCtx
 
 	pendingRead *Rec
 	noSites     bool
@@ -203,9 +203,9 @@ type Interp struct {
 }
 
 type sharedCtx struct {
-	nextBuf int
-	nextObj int
-	nextSym int
+	nextBuf  int
+	nextObj  int
+	nextSym  int
 	nextLoop int
 	lenDepth int
 	seq      int
